@@ -1,9 +1,9 @@
 package c16
 
 import (
-	"flag"
 	"encoding/binary"
 	"encoding/hex"
+	"flag"
 	"fmt"
 	"hash/fnv"
 	"reflect"
@@ -46,7 +46,7 @@ const (
 	// inputs whose tag count (as the readers will parse it) exceeds this are not
 	// executed: the tag loops run that many iterations even on an 11 byte input
 	// (minutes of CPU for 2^32), which the property does not speak about.
-	maxTagLoop = 1 << 22
+	maxTagLoop = 1 << 16
 )
 
 var (
@@ -159,7 +159,7 @@ func tooManyTagIterations(c krammar.Cell, in []byte) bool {
 // It returns a violation description or "", and whether a decode succeeded.
 func evalInput(c krammar.Cell, in []byte) (msg string, decoded bool) {
 	if tooManyTagIterations(c, in) {
-		ev.Class("skipped_tag_count_over_4M")
+		ev.Class("skipped_tag_count_over_64K")
 		return "", false
 	}
 	bound := uint64(allocK0) + factor[c.B.Name]*uint64(len(in))
@@ -190,7 +190,7 @@ func evalInput(c krammar.Cell, in []byte) (msg string, decoded bool) {
 			return fmt.Sprintf("AppendTo of the value %s decoded panicked: %v", name, pan), true
 		}
 		if tooManyTagIterations(c, re) {
-			ev.Class("skipped_tag_count_over_4M")
+			ev.Class("skipped_tag_count_over_64K")
 			continue
 		}
 		r2 := decode(c, re, unsafe, false)
@@ -438,9 +438,12 @@ func derive(rt *rapid.T, enc *krammar.Enc) []derived {
 				if m.Kind == krammar.MLenI16 {
 					val = 32767
 				}
-				if m.Kind == krammar.MTagCount {
-					val = maxTagLoop // larger counts are pre-screened anyway
+			}
+			if m.Kind == krammar.MTagCount && val > maxTagLoop {
+				if step < 9 {
+					continue
 				}
+				val = maxTagLoop // larger counts are pre-screened anyway
 			}
 			if val == cur {
 				continue
@@ -484,7 +487,7 @@ func one(rt fataler, c krammar.Cell, kind string, in []byte) {
 	if decoded {
 		ev.Class("decoded_ok_" + kind)
 	}
-	if nontrivial {
+	if nontrivial && (kind == "maxclaim" || kind == "rewrite" || kind == "bitflip") {
 		reportSample(c, kind, in, decoded)
 	}
 }
